@@ -1,5 +1,5 @@
 //! C16, pure part: ControlMessageIterator over hand-built control buffers (no system calls), meant
-//! for Miri (also runs natively). usage: cmsg_miri run <seed> <ncases> [only=<n>:<tight>:<cred>:<box>]
+//! for Miri (also runs natively). usage: cmsg_miri run <seed> <ncases> [unaligned] [only=<n>:<tight>:<cred>:<box>[:<start_mod8>]]
 //! The buffer is an exact-size, 8-aligned allocation holding exactly what the kernel would have
 //! written (msg_controllen = its length), so any access past the data is an out-of-bounds access
 //! that Miri reports. Expected output = the descriptor lists that were put in.
@@ -41,8 +41,19 @@ fn put_rec(b: &mut [u8], off: usize, level: i32, ty: i32, payload: &[u8]) -> usi
     off + align8(len)
 }
 
+#[repr(C)]
+struct RawMsgHdr {
+    name: *const u8,
+    namelen: u32,
+    iov: *mut u8,
+    iovlen: usize,
+    control: *mut u8,
+    controllen: usize,
+    flags: i32,
+}
+
 /// Err((symptom, still_a_prefix_of_expected, text))
-fn one(n: usize, tight: bool, cred: bool, boxed: bool) -> Result<(), (String, bool, String)> {
+fn one(n: usize, tight: bool, cred: bool, boxed: bool, off: usize) -> Result<(), (String, bool, String)> {
     // layout: [SCM_CREDENTIALS (12 bytes)] SCM_RIGHTS (4n bytes); `tight` = no trailing padding
     let fds: Vec<i32> = (0..n as i32).map(|i| 1000 + i * 3).collect();
     let mut payload = Vec::new();
@@ -51,32 +62,52 @@ fn one(n: usize, tight: bool, cred: bool, boxed: bool) -> Result<(), (String, bo
     }
     let pre = if cred { 32 } else { 0 };
     let total = pre + if tight { 16 + 4 * n } else { align8(16 + 4 * n) };
-    let mut buf = Buf::new(total);
+    // what the kernel would write
+    let mut recs = vec![0u8; total];
     {
-        let b = buf.slice();
-        let mut off = 0;
+        let b = &mut recs[..];
+        let mut o = 0;
         if cred {
-            off = put_rec(b, off, 1, 2, &[7u8; 12]);
+            o = put_rec(b, o, 1, 2, &[7u8; 12]);
         }
-        // write header + payload without the padding when tight
         let len = 16 + payload.len();
-        b[off..off + 8].copy_from_slice(&(len as u64).to_le_bytes());
-        b[off + 8..off + 12].copy_from_slice(&1i32.to_le_bytes());
-        b[off + 12..off + 16].copy_from_slice(&1i32.to_le_bytes());
-        b[off + 16..off + len].copy_from_slice(&payload);
+        b[o..o + 8].copy_from_slice(&(len as u64).to_le_bytes());
+        b[o + 8..o + 12].copy_from_slice(&1i32.to_le_bytes());
+        b[o + 12..o + 16].copy_from_slice(&1i32.to_le_bytes());
+        b[o + 16..o + len].copy_from_slice(&payload);
     }
+    // the caller's buffer: a slice starting `off` bytes into an 8-aligned allocation that ends with
+    // the slice; for off != 0 it has room for the data behind the first aligned address
+    let lead = (8 - off) % 8;
+    let mut buf = Buf::new(off + lead + total);
+    let (slice_lo, slice_len) = (buf.ptr as usize + off, lead + total);
     let mut data = [0u8; 8];
     let io = &mut [IoSliceMut::new(&mut data)];
-    let ctrl = buf.slice();
-    let hdr_stack;
-    let hdr_box;
-    let hdr: &MsgHdrBorrow = if boxed {
+    let ctrl = &mut buf.slice()[off..];
+    let mut hdr_stack;
+    let mut hdr_box;
+    let hdr: &mut MsgHdrBorrow = if boxed {
         hdr_box = Box::new(MsgHdrBorrow::create_recv(io, Some(ctrl)));
-        &hdr_box
+        &mut hdr_box
     } else {
         hdr_stack = MsgHdrBorrow::create_recv(io, Some(ctrl));
-        &hdr_stack
+        &mut hdr_stack
     };
+    // play the kernel: write the records where msg_control points, update msg_controllen
+    assert_eq!(std::mem::size_of::<MsgHdrBorrow>(), std::mem::size_of::<RawMsgHdr>());
+    unsafe {
+        let raw = (hdr as *mut MsgHdrBorrow).cast::<RawMsgHdr>();
+        let (c, l) = ((*raw).control as usize, (*raw).controllen);
+        if l > 0 && (c < slice_lo || c + l > slice_lo + slice_len) {
+            return Err(("range".into(), false, format!("msg_control at slice offset {} with msg_controllen {l} leaves the {slice_len}-byte slice", c as i64 - slice_lo as i64)));
+        }
+        if l < total {
+            return Err(("range".into(), false, format!("only {l} of {slice_len} bytes offered to the kernel, {total} needed")));
+        }
+        std::ptr::copy_nonoverlapping(recs.as_ptr(), (*raw).control, total);
+        (*raw).controllen = total;
+    }
+    let hdr: &MsgHdrBorrow = hdr;
     let mut got: Vec<Vec<i32>> = Vec::new();
     let mut it = hdr.control_messages();
     let cap = 8;
@@ -107,10 +138,11 @@ fn main() {
     let a = vh::args();
     let mut r = Rng::new(a.seed);
     let mut only = None;
+    let unaligned = a.rest.iter().any(|x| x == "unaligned");
     for x in &a.rest {
         if let Some(v) = x.strip_prefix("only=") {
             let p: Vec<usize> = v.split(':').map(|s| s.parse().unwrap()).collect();
-            only = Some((p[0], p[1] != 0, p[2] != 0, p[3] != 0));
+            only = Some((p[0], p[1] != 0, p[2] != 0, p[3] != 0, p.get(4).copied().unwrap_or(0)));
         }
     }
     let mut cases = Vec::new();
@@ -125,22 +157,25 @@ fn main() {
                 3 => r.range(4, 40) as usize,
                 _ => r.range(1, 253) as usize,
             };
-            cases.push((n, r.chance(1, 3), r.chance(1, 4), r.chance(1, 2)));
+            let off = if unaligned { 1 + (i as usize + r.below(7) as usize) % 7 } else { 0 };
+            cases.push((n.min(if unaligned { 40 } else { 253 }), r.chance(1, 3), r.chance(1, 4), r.chance(1, 2), off));
         }
     }
-    for (n, tight, cred, boxed) in cases {
+    for (n, tight, cred, boxed, off) in cases {
         // announce before running: if Miri stops the program, the last announced case is the witness
-        eprintln!("CASE n={n} tight={tight} cred={cred} boxed={boxed}");
+        eprintln!("CASE n={n} tight={tight} cred={cred} boxed={boxed} start_mod8={off}");
         vh::eval(1);
-        let spec = format!("{{\"n\":{n},\"tight\":{tight},\"passcred_record\":{cred},\"msghdr_boxed\":{boxed},\"miri\":{}}}", vh::IS_MIRI);
-        match one(n, tight, cred, boxed) {
+        let spec = format!("{{\"n\":{n},\"tight\":{tight},\"passcred_record\":{cred},\"msghdr_boxed\":{boxed},\"start_mod8\":{off},\"miri\":{}}}", vh::IS_MIRI);
+        match one(n, tight, cred, boxed, off) {
             Ok(()) => {
-                vh::distinct(&format!("cmsg-pure/n={}/tight={tight}/cred={cred}/boxed={boxed}", if n <= 3 { n.to_string() } else { "many".into() }));
+                vh::distinct(&format!("cmsg-pure/n={}/tight={tight}/cred={cred}/boxed={boxed}/start_mod8={off}", if n <= 3 { n.to_string() } else { "many".into() }));
                 vh::sample(&format!("{{\"kind\":\"cmsg-pure\",\"case\":{spec},\"ok\":true}}"), 2);
                 vh::count("cmsg_pure_cases_clean", 1);
             }
             Err((sym, pre, m)) => {
-                let sig = if pre {
+                let sig = if sym == "range" {
+                    "C16/recvmsg/kernel-write-outside-control-buffer".to_string()
+                } else if pre {
                     format!("C16/cmsg-iter/end-of-buffer-test-uses-local-addresses/{sym}")
                 } else {
                     "C16/cmsg-iter/fd-list-mismatch".to_string()
